@@ -166,8 +166,8 @@ CLAIMED = {
              "its own control block, adopts the winner's, counts itself there, every clone reads the original bytes at the original address, all "
              "handles dropped in any order free the storage once; a conversion racing with a sibling's clone never takes the buffer. "
              "(2) Bounded axiomatic C11 model checking (z3): litmus programs of 2 (3 in thorough) threads x up to 4 operations from {clone, read, "
-             "drop, into_vec, into_mut, is_unique} on shared / promoted / frozen / owner-backed storage and n threads cloning through one shared "
-             "&Bytes that is still unpromoted; thread bodies are the atomic skeletons extracted from a fresh MIR dump of /repo; queries: freed "
+             "drop, into_vec, into_mut, is_unique} on shared / promoted (even, odd) / frozen / owner-backed storage and shared-form BytesMut handles (split = increment, drop, "
+             "into Vec), all pairs of nine thread bodies per representation, and n threads cloning through one shared &Bytes that is still unpromoted; thread bodies are the atomic skeletons extracted from a fresh MIR dump of /repo; queries: freed "
              "twice, never freed (buffer and every control block), two zero-copy takers - unsat for every interleaving and weak-memory outcome.",
         note=COMMON_NOTE + "E3 abstracts non-atomic work to READ/WRITE/FREE/TAKE events on abstract objects via a model table for core/alloc calls "
              "(listed in the evidence); counter values 8-bit; programs outside the bounds and 'sampled schedules on real threads' are outside. "
